@@ -49,6 +49,7 @@ func ReadPointCloud(in io.Reader) (*modeling.Mesh, error) {
 	readColor := false
 
 	curLine := 0
+	fieldsPerPoint := 0
 	for scanner.Scan() && curLine < parsedCount {
 		line := strings.TrimSpace(scanner.Text())
 		if line == "" {
@@ -56,6 +57,16 @@ func ReadPointCloud(in io.Reader) (*modeling.Mesh, error) {
 		}
 
 		contents := strings.Fields(line)
+
+		if len(contents) < 3 {
+			return nil, fmt.Errorf("pts point %d has %d fields, expected at least 3: %w", curLine, len(contents), io.ErrUnexpectedEOF)
+		}
+
+		if curLine == 0 {
+			fieldsPerPoint = len(contents)
+		} else if len(contents) != fieldsPerPoint {
+			return nil, fmt.Errorf("pts point %d has %d fields, expected %d: %w", curLine, len(contents), fieldsPerPoint, io.ErrUnexpectedEOF)
+		}
 
 		if len(contents) > 2 {
 			pos, err := ParseVec3(contents[0], contents[1], contents[2])
